@@ -212,7 +212,9 @@ def det_worker(args):
     rfc6979.generate_k = gk
     try:
         for d in ds:
-            sk = SigningKey.from_secret_exponent(d, curve, hashfunc=toy.xof(4))
+            # the key's own default hash differs from the hash given explicitly to the signing call for every other key:
+            # an explicit hashfunc= has to reach the nonce generation as well as the digest
+            sk = SigningKey.from_secret_exponent(d, curve, hashfunc=toy.xof(4) if d % 2 else toy.xof(6))
             for dg in digests:
                 for entry, extra in (("digest", b""), ("data", b""), ("digest", b"\x07extra"), ("data", bytes([d % 256]))):
                     del rec[:]
@@ -235,6 +237,8 @@ def det_worker(args):
                         # a failed call in between (another hash, an encoder that raises, text instead of bytes) leaves no trace:
                         # the key's DEFAULT hash still gives the same signature afterwards
                         if extra == b"":
+                            s0 = sk.sign_deterministic(dg, sigencode=util.sigencode_strings) if entry == "data" else \
+                                sk.sign_digest_deterministic(dg, sigencode=util.sigencode_strings, allow_truncate=True)
                             for bad_call in (lambda: sk.sign_deterministic(dg, hashfunc=toy.xof(7), sigencode=lambda *a_: 1 // 0),
                                              lambda: sk.sign_deterministic(u"text", hashfunc=toy.xof(9)),
                                              lambda: sk.sign_digest_deterministic(dg, hashfunc=toy.xof(7), sigencode=lambda *a_: 1 // 0)):
@@ -244,7 +248,7 @@ def det_worker(args):
                                     pass
                             s3 = sk.sign_deterministic(dg, sigencode=util.sigencode_strings) if entry == "data" else \
                                 sk.sign_digest_deterministic(dg, sigencode=util.sigencode_strings, allow_truncate=True)
-                            same = same and s3 == s1
+                            same = same and s3 == s0 and (s0 == s1 or sk.default_hashfunc is not hf)
                     except BaseException as e:  # noqa
                         out, same, first, fargs = {"kind": type(e).__name__, "r": 0, "s": 0}, True, list(rec), list(gargs)
                         digest = dg if entry == "digest" else hf(dg).digest()
